@@ -256,6 +256,100 @@ fn sample_values() -> Vec<Value> {
   vs
 }
 
+
+/// The value as FEEL text (literals and constructor calls), when it can be written.
+fn value_text(v: &Value) -> Option<String> {
+  Some(match v {
+    Value::Null(_) => "null".to_string(),
+    Value::Boolean(b) => b.to_string(),
+    Value::Number(n) => n.to_string(),
+    Value::String(s) if !s.contains('"') && !s.contains('\\') => format!("\"{}\"", s),
+    Value::Date(_) => format!("date(\"{}\")", v),
+    Value::Time(_) => format!("time(\"{}\")", v),
+    Value::DateTime(_) => format!("date and time(\"{}\")", v),
+    Value::DaysAndTimeDuration(_) | Value::YearsAndMonthsDuration(_) => format!("duration(\"{}\")", v),
+    Value::List(xs) => {
+      let mut items = vec![];
+      for x in xs.as_vec() {
+        items.push(value_text(x)?);
+      }
+      format!("[{}]", items.join(", "))
+    }
+    Value::Context(ctx) => {
+      let mut items = vec![];
+      for (k, x) in ctx.get_entries() {
+        items.push(format!("{}: {}", k, value_text(x)?));
+      }
+      format!("{{{}}}", items.join(", "))
+    }
+    Value::Range(lo, lc, hi, hc) => {
+      if matches!(**lo, Value::Null(_)) || matches!(**hi, Value::Null(_)) {
+        return None;
+      }
+      format!("{}{}..{}{}", if *lc { "[" } else { "(" }, value_text(lo)?, value_text(hi)?, if *hc { "]" } else { ")" })
+    }
+    _ => return None,
+  })
+}
+
+fn same_value(x: &Value, y: &Value) -> bool {
+  match (x, y) {
+    (Value::Null(_), Value::Null(_)) => true,
+    (Value::List(a), Value::List(b)) => a.as_vec().len() == b.as_vec().len() && a.as_vec().iter().zip(b.as_vec().iter()).all(|(p, q)| same_value(p, q)),
+    (Value::Context(a), Value::Context(b)) => {
+      let (ea, eb) = (a.get_entries(), b.get_entries());
+      ea.len() == eb.len() && ea.iter().zip(eb.iter()).all(|((k, p), (l, q))| k == l && same_value(p, q))
+    }
+    (p, q) => p == q,
+  }
+}
+
+/// `evaluate(parse_expression(text))` in a scope that binds nothing; a panic or an error is `None`.
+fn eval_feel(text: &str) -> Option<Value> {
+  crate::util::note_case(text);
+  crate::util::guarded(|| {
+    let scope = Scope::default();
+    let node = dmntk_feel_parser::parse_expression(&scope, text, false).ok()?;
+    dmntk_feel_evaluator::evaluate(&scope, &node).ok()
+  })
+  .ok()
+  .flatten()
+}
+
+/// A value with lists whose items are of different types / depths (what `list<T>` parameters are fed with).
+fn random_value(rng: &mut Rng, depth: u32) -> Value {
+  let num = |n: i128| Value::Number(FeelNumber::new(n, 0));
+  if depth == 0 || rng.chance(1, 3) {
+    return match rng.below(6) {
+      0 => Value::Null(None),
+      1 => Value::Boolean(rng.chance(1, 2)),
+      2 | 3 => num(rng.range(0, 9) as i128),
+      _ => Value::String(rng.pick(&["a", "b", ""]).to_string()),
+    };
+  }
+  match rng.below(6) {
+    0 => {
+      let mut c = FeelContext::default();
+      for k in ["a", "b"] {
+        if rng.chance(2, 3) {
+          c.set_entry(&name(k), random_value(rng, depth - 1));
+        }
+      }
+      Value::Context(c)
+    }
+    1 => {
+      // a list of items of one shape
+      let x = random_value(rng, depth - 1);
+      let n = rng.below(4) as usize;
+      Value::List(Values::new((0..n).map(|_| x.clone()).collect()))
+    }
+    _ => {
+      let n = rng.below(4) as usize;
+      Value::List(Values::new((0..n).map(|_| random_value(rng, depth - 1)).collect()))
+    }
+  }
+}
+
 fn bool_of(s: &Sexp) -> Option<bool> {
   match s.as_atom()? {
     "true" => Some(true),
@@ -442,36 +536,55 @@ pub fn run(cfg: &Cfg) -> Report {
   rep.extra.insert("triples_with_both_premises".into(), json!(chains));
 
   // ---------------------------------------------------------------- coercion
-  let values = sample_values();
+  let mut values = sample_values();
+  let n_fixed_values = values.len();
+  for _ in 0..(if thorough { 600 } else { 60 }) {
+    values.push(random_value(&mut rng, 3));
+  }
   let mut targets: Vec<FeelType> = universe.clone();
   for _ in 0..(if thorough { 5000 } else { 500 }) {
     targets.push(random_type(&mut rng, 3));
   }
   let mut creqs = vec![];
   let mut cases = vec![];
-  for v in &values {
+  // (target, value, the target was derived from the value)
+  for (vi, v) in values.iter().enumerate() {
     let sk = match value_skeleton(v) {
       Some(s) => s,
       None => continue,
     };
     // targets derived from the value's own type, so that every branch of `coerced` is taken
     let tv = v.type_of();
-    let mut ts = targets.clone();
-    ts.push(tv.clone());
-    ts.push(FeelType::List(Box::new(tv.clone())));
+    // the generated values meet the derived targets and a sample of the others
+    let mut ts: Vec<(FeelType, bool)> = if vi < n_fixed_values { targets.iter().map(|t| (t.clone(), false)).collect() } else { (0..40).map(|_| (rng.pick(&targets).clone(), false)).collect() };
+    ts.push((tv.clone(), true));
+    ts.push((FeelType::List(Box::new(tv.clone())), true));
+    ts.push((FeelType::List(Box::new(FeelType::List(Box::new(tv.clone())))), true));
     if let FeelType::List(inner) = &tv {
-      ts.push((**inner).clone());
+      ts.push(((**inner).clone(), true));
       if let FeelType::List(inner2) = &**inner {
-        ts.push((**inner2).clone());
+        ts.push(((**inner2).clone(), true));
       }
     }
-    for t in ts {
+    if let Value::List(items) = v {
+      // the types of the items: lists whose items do not all conform to the item type of the target
+      for x in items.as_vec() {
+        let tx = x.type_of();
+        ts.push((FeelType::List(Box::new(tx.clone())), true));
+        ts.push((FeelType::List(Box::new(FeelType::List(Box::new(tx.clone())))), true));
+        if let FeelType::List(inner) = &tx {
+          ts.push((FeelType::List(inner.clone()), true));
+        }
+      }
+    }
+    for (t, derived) in ts {
       creqs.push(format!("(c16 coerce {} {})", type_sexp(&t), sk));
-      cases.push((t, v.clone()));
+      cases.push((t, v.clone(), derived));
     }
   }
+  let mut writable_types: std::collections::HashMap<String, bool> = std::collections::HashMap::new();
   let canswers = model.ask_batch(&creqs);
-  for (((t, v), req), ans) in cases.iter().zip(creqs.iter()).zip(canswers.iter()) {
+  for (((t, v, derived), req), ans) in cases.iter().zip(creqs.iter()).zip(canswers.iter()) {
     let r = t.coerced(v);
     let tv = v.type_of();
     rep.case(req, tv != *t);
@@ -511,6 +624,60 @@ pub fn run(cfg: &Cfg) -> Report {
         &r.to_string(),
         &format!("{} ({})", expected, tag),
       );
+    }
+    // ---- the same coercion where FEEL applies it: an argument bound to a typed formal parameter, positionally
+    // and by name, through the parser and the evaluator (types and values that can be written as FEEL text)
+    if *derived || rng.chance(1, 6) {
+      let t_text = t.to_string();
+      let t_writable = *writable_types.entry(t_text.clone()).or_insert_with(|| match eval_feel(&format!("function (x: {}) x", t_text)) {
+        Some(Value::FunctionDefinition(ps, _, _)) => ps.len() == 1 && ps[0].1 == *t,
+        _ => false,
+      });
+      let v_text = value_text(v).filter(|vt| eval_feel(vt).map_or(false, |w| same_value(&w, v)));
+      match (t_writable, v_text) {
+        (true, Some(v_text)) => {
+          for (form, text) in [
+            ("positional", format!("(function (x: {}) x)({})", t_text, v_text)),
+            ("named", format!("(function (x: {}) x)(x: {})", t_text, v_text)),
+            ("positional, second parameter", format!("(function (w, x: {}) x)(0, {})", t_text, v_text)),
+          ] {
+            if form.ends_with("second parameter") && !rng.chance(1, 4) {
+              continue;
+            }
+            rep.case(&format!("invocation|{}", text), tv != *t);
+            rep.hit(&format!("invocation:{}:{}", form, tag));
+            let got = eval_feel(&text);
+            let txt = format!("{} (the specification: coerce {} {} = {} ({}))", text, t_text, v_text, expected, tag);
+            match got {
+              None => rep.disagree(Kind::ImplVsSpec, "invocation_coerces", &format!("invocation with a typed parameter fails to evaluate ({})", form), &txt, "error or panic", &expected.to_string()),
+              Some(g) => {
+                if !matches!(g, Value::Null(_)) && !g.type_of().is_conformant(t) {
+                  rep.disagree(
+                    Kind::ImplVsSpec,
+                    "invocation_conforms_or_null",
+                    &format!("a typed parameter receives a value that neither conforms to its type nor is null ({})", form),
+                    &txt,
+                    &g.to_string(),
+                    "conforming or null",
+                  );
+                }
+                if !same_value(&g, &expected) {
+                  rep.disagree(
+                    Kind::ImplVsSpec,
+                    "invocation_coerces",
+                    &format!("a typed parameter does not receive the coercion of the argument to its type ({}, the specification says {})", form, tag),
+                    &txt,
+                    &g.to_string(),
+                    &expected.to_string(),
+                  );
+                }
+              }
+            }
+          }
+        }
+        (false, _) => rep.hit("invocation:type cannot be written"),
+        (_, None) => rep.hit("invocation:value cannot be written"),
+      }
     }
     if rep.samples.len() < 8 && (tag == "wrap" || tag == "unwrap") {
       rep.sample(json!({"request": req, "implementation": r.to_string(), "model": ans}));
